@@ -26,6 +26,16 @@ PLANS = {
         ],
         "assumptions": ["internal aios are observed through link-time wrapping of nni_task_*/nni_aio_* (sim/aiomon.c); the monitor self-reports its event counts in stats"],
     },
+    "C04": {
+        "level": "exploration",
+        "rule": NT_RULE + "; C04: at least one reply was delivered or one request served and all delivered replies validated",
+        "budget_s": {"quick": 55, "thorough": 900},
+        "scenarios": [
+            S("c04_reqatk", 1500, 50000),
+            S("c04_repatk", 1200, 40000),
+        ],
+        "assumptions": ["the adversarial replier is a raw-mode REP socket (it controls the reply id word completely); requesters in part B are raw-mode REQ sockets"],
+    },
     "C05": {
         "level": "exploration",
         "rule": NT_RULE + "; C05: at least one message was published and the model compared",
